@@ -80,7 +80,7 @@ class Content:
             disks.append((d.name, tuple(f.key(with_inode) for f in d.files), tuple(d.links), tuple(d.dirs),
                           tuple(sorted(d.deleted.items()))))
         maps = tuple((m["name"], m["pos"], m["uuid"]) + ((m["total"], m["free"]) if with_free else ()) for m in self.maps)
-        par = tuple((l, tuple(p["splits"])) + ((p["total"], p["free"]) if with_free else ())
+        par = tuple((l, tuple(p["splits"]) if p["splits"] is not None else ("legacy", p["legacy_uuid"])) + ((p["total"], p["free"]) if with_free else ())
                     for l, p in sorted(self.parity.items()))
         return (self.version, self.block_size, self.blockmax, self.hash_size, self.hash, self.seed,
                 self.prevhash, self.prevseed, maps, par, tuple(disks), tuple(self.info))
